@@ -401,6 +401,15 @@ fn render(root: &str, items: &[Item], decoy: bool) -> (String, Vec<(u32, u32)>) 
                     _ => {}
                 }
             }
+            // a benchmark declared inside a function body registers like any other
+            let nested = it.hint("nest") == "1";
+            let outer = ind.clone();
+            let ind = if nested {
+                src.push_str(&format!("{outer}pub fn holder_{i}() {{\n"));
+                format!("{outer}    ")
+            } else {
+                ind.clone()
+            };
             let attr_line = line_no(src);
             src.push_str(&format!(
                 "{ind}#[divan::bench{}]\n",
@@ -416,7 +425,11 @@ fn render(root: &str, items: &[Item], decoy: bool) -> (String, Vec<(u32, u32)>) 
             } else {
                 format!("crate::sup::call({slot_expr}, {show})")
             };
-            src.push_str(&format!("{ind}pub fn {}{g}({}) {{\n{ind}    {body}\n{ind}}}\n", it.raw, params.join(", ")));
+            let abi = if it.hint("abi") == "C" { "extern \"C\" " } else { "" };
+            src.push_str(&format!("{ind}pub {abi}fn {}{g}({}) {{\n{ind}    {body}\n{ind}}}\n", it.raw, params.join(", ")));
+            if nested {
+                src.push_str(&format!("{outer}}}\n"));
+            }
             lines[i] = (attr_line, fn_line);
         }
         if decoy && depth == 0 {
@@ -623,6 +636,12 @@ impl Gen<'_> {
             let clash = mods.iter().any(|m| strip(m) == strip(f));
             let choice = self.rng.below(10);
             hints.insert("fb".into(), if self.rng.chance(1, 4) { "0" } else { "1" }.into());
+            if self.rng.chance(1, 8) {
+                hints.insert("nest".into(), "1".into());
+            }
+            if self.rng.chance(1, 8) {
+                hints.insert("abi".into(), "C".into());
+            }
             let mk = |kind, types: String, consts: String, args: String, hints| Item {
                 kind,
                 path: path.to_string(),
@@ -673,8 +692,11 @@ impl Gen<'_> {
                 let consts: (char, Vec<String>) = if with_c {
                     match self.rng.below(3) {
                         0 | 1 => {
-                            let lists: [&[&str]; 5] = [&["1", "2", "4"], &["16", "4", "-1", "100"], &["0"], &["3", "20", "100"], &[]];
-                            let l = lists[self.rng.below(if with_t { 5 } else { 4 }) as usize];
+                            // the last but one: as many as an external const list may hold (20)
+                            const TWENTY: &[&str] = &["0", "1", "2", "3", "4", "5", "6", "7", "8", "9", "10", "11", "12", "13", "14", "15", "16", "17", "18", "19"];
+                            let lists: [&[&str]; 6] = [&["1", "2", "4"], &["16", "4", "-1", "100"], &["0"], &["3", "20", "100"], TWENTY, &[]];
+                            let pick = self.rng.below(if with_t { 12 } else { 10 }) as usize;
+                            let l = if pick >= 10 { lists[5] } else if pick == 9 && !with_t { lists[4] } else { lists[pick % 4] };
                             let signed = l.iter().any(|x| x.starts_with('-'));
                             let small = l.iter().all(|x| x.parse::<i64>().unwrap() >= 0 && x.parse::<i64>().unwrap() < 256);
                             let cts: &[&str] = if signed { &["i64", "i32", "isize"] } else if small { &["i64", "u8", "usize", "u32"] } else { &["i64"] };
